@@ -161,7 +161,9 @@ Skel(toks) == LET tg == SelectSeq(toks, IsTag) IN
               [i \in DOMAIN tg |-> [t |-> tg[i].t, name |-> tg[i].name, an |-> [j \in DOMAIN tg[i].atts |-> tg[i].atts[j].n]]]
 AttrSkel(toks) == LET tg == SelectSeq(toks, IsTag) IN [i \in DOMAIN tg |-> [t |-> tg[i].t, name |-> tg[i].name, atts |-> tg[i].atts]]
 RECURSIVE TextFrom(_, _)
-TextFrom(toks, i) == IF i > Len(toks) THEN "" ELSE (IF toks[i].t = "text" THEN toks[i].s ELSE "") \o TextFrom(toks, i + 1)
+TextFrom(toks, i) ==      \* character data: text tokens, and values written raw on request (`structure`)
+    IF i > Len(toks) THEN ""
+    ELSE (IF toks[i].t = "text" \/ (toks[i].t = "raw" /\ toks[i].src = "data") THEN toks[i].s ELSE "") \o TextFrom(toks, i + 1)
 AllText(toks) == TextFrom(toks, 1)
 Markup == {"<", ">", "&", "\"", "'"}
 \* the template asked for structure with a value that carries markup: skeletons are not comparable
